@@ -50,7 +50,12 @@ AS = [
     "monotonicity in binary64 is checked as non-strict (the real functions are strictly monotone: theorems strict_mono_c / strict_mono_j)",
     "inputs outside [0,1] (not ratios of sketch sizes) are only compared with the model, the property says nothing about them",
 ]
-RULE = ("(the mh flavour also sends a third of its sketch pairs through the compare-level ANI entry points: compare_all_pairs(return_ani=True) with n_jobs None and 2, "
+RULE = ("(ONE operation, several routes: every estimate of the mh flavour is evaluated through all its spellings - sketch / frozen-sketch / signature level, defaults and the "
+        "documented values spelled out, pre-computed containment / Jaccard handed in, downsample=True, the module-level function, n_unique_kmers= vs sequence_len_bp= - the answering "
+        "spelling alternates under a per-case counter, all must agree: C17:routes-differ / C17:views-differ; the cls ops also read every result through resultdict / prefetchresultdict / "
+        "gatherresultdict and through the database layer - LinearIndex + search_databases_with_flat_query / prefetch_database / GatherDatabases; size_is_accurate is asked again on the same "
+        "and on a grown object: C17:history-differs; boundary flavour jewin: size-accurate pairs whose Jaccard error bound lies just below / inside / just above 1e-4 and 1e-3) "
+        "(the mh flavour also sends a third of its sketch pairs through the compare-level ANI entry points: compare_all_pairs(return_ani=True) with n_jobs None and 2, "
         "compare_serial, compare_serial_containment / _max_containment / _avg_containment(return_ani=True); a withheld MinHash-level estimate must be exactly 0.0 in the matrix) "
         "seven case flavours: cls (the mh flavour's sketch pairs through FracMinHashComparison - every estimate_* method and ANI property, cmp_scaled "
         "None / max / coarser / finer, estimate_ani_ci, ani_confidence - NumMinHashComparison, PrefetchResult, GatherResult, SearchResult incl. the CSV row "
@@ -123,5 +128,5 @@ if __name__ == "__main__":
     except SystemExit:
         print("TOOL-FAILURE property=C17 rust harness does not build against the working tree")
         sys.exit(2)
-    streamlib.run_property("C17", ani, ["closed", "res", "ci", "mh", "native", "sia", "cls", "closed", "res", "mh", "native"], ani.oracle,
-                           4400, 40000, TB, AS, RULE, nontrivial=ani.nontrivial, extra=extra)
+    streamlib.run_property("C17", ani, ["closed", "res", "ci", "mh", "native", "sia", "cls", "closed", "res", "mh", "native", "jewin"], ani.oracle,
+                           2400, 40000, TB, AS, RULE, nontrivial=ani.nontrivial, extra=extra)
